@@ -62,6 +62,11 @@ def gen_cases(r: Run):
             cases.append((pairs, t, form))
     for pairs, t in EXACT_TIES:
         cases.append((pairs, t, "vec"))
+    # a call that FAILS (2^30 atoms: the repeated-squaring counter overflows, outside every property's domain) followed,
+    # in the same process and on the same thread, by ordinary calls: nothing may survive the failed call
+    for follow in (("H:0=2,O:0=1", Fraction(0)), ("-", Fraction(0)), ("C:0=3,O:0=4", Fraction(1, 1000))):
+        cases.append(("F:0=1073741824", Fraction(0), "vec"))
+        cases.append((follow[0], follow[1], "vec"))
     # an element whose every arrangement falls below the threshold (the running product becomes EMPTY), placed
     # before / between / after other elements: the result must stay empty
     ma = max_abundance()
@@ -142,8 +147,10 @@ def run(r: Run):
         r.leanchecker(MODULES)
     cases = gen_cases(r)
     lines = [f"conv\t{p}\t0\t0/1\t{fr(t)}\t{form}" for p, t, form in cases]
-    impl = r.impl("conv", lines, stall=120)
-    model = r.model("conv", lines, stall=300)
+    # (one interpreter process for the whole stream: "the next call on the same thread" must be the next line)
+    impl = r.run_lines(r.harness_bin(), "exec", lines, "harness", extra_args=("conv",), stall=120)
+    # (the failing call is not given to the model: it is outside the domain, and 2^30 levels overflow the driver's stack)
+    model = r.model("conv", [l if "F:0=1073741824" not in l else "conv\t-\t0\t0/1\t0/1\tvec" for l in lines], stall=300)
     corr_ok = True
     skipped = 0
     for (pairs, t, form), line, il, dl in zip(cases, lines, impl, model):
@@ -151,6 +158,9 @@ def run(r: Run):
         if len(parts) != 2:
             raise Broken(f"driver: {dl[:100]}")
         ms, ss = parts
+        if pairs == "F:0=1073741824":
+            r.case(("failing-call", il.split(" ")[0]), {"line": line, "impl": il[:60]})
+            continue   # outside the domain (it only has to leave nothing behind for the next call)
         ip = parse_pattern(il)
         mp = parse_pattern(ms)
         cnts = tuple(sorted(int(kv.split("=")[1]) for kv in pairs.split(",") if "=" in kv))
